@@ -52,6 +52,8 @@ def detect(sid, checks):
             out[c] = {"rc": rc, "violations": len(viol), "first": (viol[0] if viol else ""), "detail": next((l for l in o.split("\n") if l.startswith("  ")), "")[:300], "s": round(time.time() - t)}
     finally:
         sh(["git", "-C", "/repo", "checkout", "--", "."])
+        # files regenerated from /repo (Gen/Frontend.lean) must describe the clean tree again
+        sh([sys.executable, os.path.join(V, "tools", "gen_frontend.py")], cwd=V, env=os.environ)
     return out
 
 
